@@ -45,6 +45,8 @@ Perturb(kind, fs) ==
     \cup { Append(fs, e) : e \in Extras(kind) }
     \cup { <<e>> \o fs : e \in Extras(kind) }
     \cup { Remove(fs, i) \o <<fs[i]>> : i \in Pseus(fs) }                                                      \* pseudo field after the regular ones
+    \* the authority comes from Host alone: present and non-empty (delivered), or empty (no non-empty authority at all: refused)
+    \cup UNION { { Remove(fs, i) \o <<<<N_HOST, h>>>>, <<<<N_HOST, h>>>> \o Remove(fs, i) } : i \in { j \in Pseus(fs) : fs[j][1] = N_AUTHORITY }, h \in { <<>>, <<97>>, <<98, 58, 56, 48>> } }
 
 Uri == <<104, 116, 116, 112, 115, 58, 47, 47, 97, 47>>
 ReqProg == <<[op |-> "send_request", method |-> GETm, uri |-> Uri, fields |-> <<>>], [op |-> "recv_response"], [op |-> "recv_body"], [op |-> "recv_trailers"]>>
